@@ -36,3 +36,37 @@ Definition add_check (c : add_case) : bool :=
   | None, None => true
   | _, _ => false
   end.
+
+(* C03 / C05 / C13: training.  The implementation must agree with the model on the final parameters,
+   the number of iterations and the last reported average log-likelihood.  For MAP with variance
+   updating the check accepts agreement with either the faithful variance blend (today's code, known
+   finding D2) or the repaired one (Reynolds eq. 13), so that a later correct repair is not an alarm. *)
+Record fit_case := {
+  fc_w : list float; fc_mu : list (list float); fc_var : list (list float); fc_thr : list (list float);
+  fc_sw : bool * bool * bool;                      (* update means, variances, weights *)
+  fc_eps : float;
+  fc_map : option (option float * float * MF.gmm);  (* None = ML; Some (relevance, alpha, prior) = MAP *)
+  fc_cap : nat; fc_cthr : option float; fc_nf : nat;
+  fc_chunks : list (list (list float));
+  fc_rtol : float; fc_atol : float;
+  fc_ow : list float; fc_omu : list (list float); fc_ovar : list (list float); fc_steps : nat; fc_last : float }.
+Definition fit_run (sq : bool) (c : fit_case) :=
+  let '(um, uv, uw) := fc_sw c in
+  let sw := {| MF.upd_means := um; MF.upd_vars := uv; MF.upd_ws := uw |} in
+  let tr := match fc_map c with None => MF.ML | Some (r, a, p) => MF.MAP sq r a p end in
+  let mc := {| MF.g := mkgmm (fc_w c) (fc_mu c) (fc_var c); MF.thr := fc_thr c |} in
+  MF.fit (fc_cap c) tr sw (fc_eps c) (fc_cthr c) (fc_nf c) (fc_chunks c) mc.
+Definition fit_matches (sq : bool) (c : fit_case) : bool :=
+  match fit_run sq c with
+  | Some (mc, steps, hist) =>
+      let gm := MF.g mc in
+      andb (Nat.eqb steps (fc_steps c))
+      (andb (fclose_list (fc_rtol c) (fc_atol c) (MF.ws gm) (fc_ow c))
+      (andb (fclose_mat (fc_rtol c) (fc_atol c) (MF.mus gm) (fc_omu c))
+      (andb (fclose_mat (fc_rtol c) (fc_atol c) (MF.vars gm) (fc_ovar c))
+            (match hist with [] => true | h :: _ => fclose (fc_rtol c) (fc_atol c) h (fc_last c) end))))
+  | None => false
+  end.
+Definition fit_check (c : fit_case) : bool := orb (fit_matches false c) (fit_matches true c).
+(* which of the two definitions the implementation follows (only meaningful for MAP + variances) *)
+Definition fit_follows_repaired (c : fit_case) : bool := andb (fit_matches true c) (negb (fit_matches false c)).
